@@ -406,6 +406,9 @@ func (c *Client) Connect(ctx context.Context) error {
 
 	stream, err := c.c.Modify(ctx)
 	if err != nil {
+		// No sender is started, record that it has exited such that requests
+		// are not queued for it and the request channel is not closed for it.
+		close(c.sendExitCh)
 		return fmt.Errorf("cannot open Modify RPC, %v", err)
 	}
 
